@@ -19,7 +19,8 @@ EXTENDS Integers, Sequences, FiniteSets, TLC, Json
 CONSTANTS Cross,       \* P and S subscribed to each other (cross-blocked pairs)
           SelfSub,     \* P is subscribed to its own topic (its own outgoing ring fills when it stops reading)
           WithAttacker, MaxSteps,
-          WillKind     \* "none" | "small" | "big": P and S connect with a will on a topic the witness subscriber holds;
+          WillKind     \* "none" | "small" | "mid" | "big": P and S connect with a will on a topic the witness subscriber holds;
+                       \* "mid": longer than anything a client can publish through a ring (ring minus a read block), shorter than a ring;
                        \* "big": larger than a ring (it arrives in the CONNECT, not through the ring), so it can be
                        \* delivered to nobody - the connection must be torn down all the same and nobody else may suffer
 
